@@ -189,7 +189,7 @@ impl RefSlave {
                     if self.in_len == 0 {
                         vec![rc::SC]
                     } else {
-                        let inputs: Vec<u8> = (0..self.in_len).map(|i| self.counter.wrapping_mul(7).wrapping_add(i as u8)).collect();
+                        let inputs: Vec<u8> = (0..self.in_len).map(|i| if self.addr % 3 == 1 && i % 4 == 3 { rc::SC } else { self.counter.wrapping_mul(7).wrapping_add(i as u8) }).collect(); // some devices deliver values that look like short confirmations
                         self.last_inputs = inputs.clone();
                         self.sent_inputs.push(inputs.clone());
                         let st = if self.diag_pending { 0x0A } else { 0x08 };
